@@ -13,7 +13,7 @@ The label of every abstract value is its history term, so rules compare strings 
 """
 from __future__ import annotations
 
-from .absint import AObj, BoundMethod, ClassRef, Interp, Opaque, Tok, to_text, EnumV, FlagV, Sym
+from .absint import AObj, BoundMethod, ClassRef, Interp, Opaque, OpaqueMethod, Tok, to_text, EnumV, FlagV, Sym
 from .report import AnalysisError
 
 
@@ -50,7 +50,7 @@ class Runner:
 
     def mk_self(self, **over):
         ext = AObj("HexagonTransformerExtension", {}, label="ext", opaque=True)
-        holder = AObj("ILOpsHolder", {}, label="holder", opaque=True)
+        holder = AObj("ILOpsHolder", {"hybrid_effect_dict": {}, "hybrid_op_count": 0}, label="holder", opaque=True)
         f = {"ext": ext, "il_ops_holder": holder, "parameters": {}, "imm_set_effect_list": [],
              "sub_routines": Opaque("self.sub_routines"), "macros": Opaque("self.macros"),
              "return_type": Opaque("self.return_type"), "code_format": Opaque("self.code_format"), "arch": Opaque("arch")}
@@ -66,6 +66,17 @@ class Runner:
             return NotImplemented
         if isinstance(callee, ClassRef) and callee.name in self.node_classes:
             return self.node(interp, callee.name, args, kwargs)
+        if isinstance(callee, OpaqueMethod):
+            # setters of abstract nodes (bodies: Assignment.set_src/set_dest, Pure.set_value_type, GCCStmtDeclExpr.update_stmt)
+            o, a = callee.obj, callee.attr
+            setters = {"set_src": "src", "set_dest": "dest", "set_value_type": "value_type", "update_stmt": "stmt"}
+            if a in setters and len(args) == 1:
+                interp.events.append(("setter", o, a, args[0]))
+                o.fields[setters[a]] = args[0]
+                return None
+            if a in ("get_name", "pure_var", "effect_var", "get_isa_name") and not args:
+                interp.events.append(("call", callee.text, args, kwargs))
+                return Opaque(f"{callee.text}()")
         return NotImplemented
 
     def node(self, interp, cname, args, kwargs):
@@ -150,13 +161,16 @@ class Runner:
         return to_text(x)
 
     # ------------------------------------------------------------------ run
-    def run(self, method, make_items, self_over=None, max_runs=256):
+    def run(self, method, make_items, self_over=None, max_runs=256, args_list=False, kwargs=None, may_subclass=False):
+        """make_items() -> the `items` list (or, with args_list=True, the full positional argument list)."""
         fi = self.idx.func(f"RZILTransformer.{method}")
 
         def once(interp):
             self.nodes = []
             s = self.mk_self(**(self_over() if self_over else {}))
-            return interp.call_function(fi, [make_items()], self_obj=s)
+            self.self_obj = s
+            a = make_items()
+            return interp.call_function(fi, list(a) if args_list else [a], kwargs() if kwargs else None, self_obj=s)
 
-        interp = Interp(self.idx, sym_compare=self.sym_compare, call_hook=self.hook)
+        interp = Interp(self.idx, sym_compare=self.sym_compare, call_hook=self.hook, may_subclass=may_subclass)
         return fi, interp.explore(once, max_runs=max_runs)
